@@ -7,7 +7,8 @@ from common import rng
 FAMILY = "ladder"
 HARNESS = {"source": "x_ladder.c", "exclude_objs": ["loop"], "leak_clean": True}
 ENV = {"VERIF_LEAKCHECK": "1"}
-RULE = ("dup: n = 0..12 x every fault position 0..n+2; names: n = 1..8 stored item names x every fault position 0..2n+2; clone / insert / set: value shapes (scalars, numbers with and without su, "
+RULE = ("deser: every generated list shape without numbers x every fault position; packet: 0..9 names, each already normalised or respelled (13 fixed + random flag strings) x every fault position; "
+        "copychar: 6 target shapes x fault positions 0..2; dup: n = 0..12 x every fault position 0..n+2; names: n = 1..8 stored item names x every fault position 0..2n+2; clone / insert / set: value shapes (scalars, numbers with and without su, "
         "lists nested <= 3, width <= 4; random beyond the enumerated small ones) x every fault position 0..(allocations+1); "
         "non-trivial = a fault position that is reached; oracle: on failure nothing allocated in the call stays live, no "
         "block is released twice, result is CIF_MEMORY_ERROR/CIF_ERROR; on success rc = 0")
@@ -26,6 +27,9 @@ def nallocs(sh):
     return 2 + sum(nallocs(e) for e in sh)
 
 
+TARGETS = [["C", "M1"], "S", "C", "M0", [], [["C"], "S", "M1"]]
+
+
 def toks(sh):
     if isinstance(sh, str):
         return [sh]
@@ -42,6 +46,12 @@ def rand_shape(r, depth):
     return r.choice(["S", "C", "C", "M0", "M1"])
 
 
+def rand_nonum(r, depth):
+    if depth > 0 and r.random() < 0.4:
+        return [rand_nonum(r, depth - 1) for _ in range(r.randint(0, 4))]
+    return r.choice(["S", "C", "C"])
+
+
 def generate(seed, tier):
     r = rng(seed, FAMILY)
     for n in range(0, 13 if tier == "quick" else 40):
@@ -50,8 +60,21 @@ def generate(seed, tier):
     for n in range(1, 9 if tier == "quick" else 30):
         for k in range(0, 2 * n + 3):
             yield "ladder names %d %d" % (n, k)
+    # cif_packet_create: at most 9 names, so that no uthash bucket can reach the expansion threshold of 10 entries
+    flagsets = ["-", "n", "r", "nn", "nr", "rn", "rr", "nrn", "rrn", "nnnn", "rnrnr", "rrrrrrrrr", "nnnnnnnnn"]
+    flagsets += ["".join(r.choice("nr") for _ in range(r.randint(1, 9))) for _ in range(6 if tier == "quick" else 80)]
+    for fl in flagsets:
+        n = 0 if fl == "-" else len(fl)
+        total = 1 + 3 * n + 1 + n + (2 if n else 0) + fl.count("r")
+        for k in range(0, total + 2):
+            yield "ladder packet %s %d" % (fl, k)
+    for tsh in TARGETS:
+        for k in range(0, 3):
+            yield "ladder copychar %s %d" % (" ".join(toks(tsh)), k)
     shapes = ["S", "C", "M0", "M1", [], ["C"], ["C", "M1"], [[]], [["C"], "S"], ["M0", ["C", ["M1"]], "C"]]
+    shapes += [[], ["S"], ["C", "S", "C"], [[], "C"], ["C", ["C", ["C", "S"]], [], "C"]]
     shapes += [rand_shape(r, 3) for _ in range(40 if tier == "quick" else 600)]
+    shapes += [[rand_nonum(r, 2) for _ in range(r.randint(0, 4))] for _ in range(12 if tier == "quick" else 150)]
     for sh in shapes:
         n = nallocs(sh)
         for k in range(0, n + 2):
@@ -60,8 +83,16 @@ def generate(seed, tier):
             for full in (0, 1):
                 for k in range(0, n + 3):
                     yield "ladder insert %d %s %d" % (full, " ".join(toks(sh)), k)
-        for k in range(0, n + 1):             # clone into the existing target: one request less (no value object)
-            yield "ladder set %s %d" % (" ".join(toks(sh)), k)
+        if isinstance(sh, list) and "M" not in " ".join(toks(sh)):
+            # blob of a list without numbers: the requests are a subset of the clone's (no top object, no array for an
+            # empty list), so 0..n+1 covers every fault position
+            for k in range(0, n + 2):
+                yield "ladder deser %s %d" % (" ".join(toks(sh)), k)
+        # replace an existing element (of a few different shapes) by a clone of sh: the clone is built in a scratch object
+        # (n requests), fault positions 0..n+1
+        for tsh in (TARGETS if len(toks(sh)) < 12 else TARGETS[:2]):
+            for k in range(0, n + 2):
+                yield "ladder set %s %s %d" % (" ".join(toks(tsh)), " ".join(toks(sh)), k)
 
 
 def _f(obs, name):
@@ -72,15 +103,12 @@ def _f(obs, name):
 
 
 def finding_class(req, impl, model, why):
-    """open finding F31 (cif_loop_get_names_internal): when the allocation of a name string fails, the list node obtained
-    just before is never released.  Matched only when the implementation shows EXACTLY the leak the pinned model predicts
-    (same events, the one live block is the request before the failed one)."""
-    import re
+    """open finding F31 (cif_packet_create_norm): when uthash cannot allocate its table for the first entry, the failure
+    handler applies the hash macros to a head entry whose hh.tbl is NULL.  Matched only at the fault position where the
+    pinned model predicts undefined behaviour (rc=U) and only for a sanitizer report from map.c / packet.c."""
     t = req.split()
-    if len(t) == 4 and t[1] == "names" and model and re.sub(r" !LEAK\d*$", "", impl) == model:
-        fails, live = _f(impl, "fails"), _f(impl, "live")
-        if fails and fails.isdigit() and int(fails) % 2 == 0 and live == str(int(fails) - 1):
-            return "names/string-alloc-fails/node-leak"
+    if len(t) == 4 and t[1] == "packet" and model and " rc=U " in model + " " and impl.startswith("SAN:ubsan"):
+        return "packet/uthash-table-alloc-fails/null-table-deref"
     return None
 
 
@@ -97,10 +125,16 @@ def oracle(req, impl):
         return None
     if "!LEAK" in impl:
         return "memory leaked"
+    for bad in ("later-insert=", "unreadable@", "size="):
+        if bad in impl:
+            return "the caller's list is not usable as a list after the call: " + impl.split(bad, 1)[1].split()[0].join([bad, ""])
+    for mark in ("!PNAME", "!PCOUNT", "!PITEM", "!NOPACKET", "!TEXT", "!NEWVALUE"):
+        if mark in impl:
+            return "after success the created packet / the character value is not what was requested: " + mark
     if "!NAMES" in impl or "setup-failed" in impl:
         return "cif_loop_get_names: wrong number of names / set-up failed"
     for mark, what in (("!COUNT", "the list lost or gained elements"), ("!ELEM", "the target element is no longer retrievable"),
-                       ("!KIND", "after success the target element does not have the kind of the source")):
+                       ("!NEWVALUE", "after success the target element does not equal the source")):
         if mark in impl:
             return "cif_value_set_element_at: " + what
     rc, fails, live, frees = _f(impl, "rc"), _f(impl, "fails"), _f(impl, "live"), _f(impl, "frees")
